@@ -472,6 +472,55 @@ theorem archive_key_confined (root sub : APath) (basePath ak ck : Str)
       have := congrArg List.length e
       simp [dotdot, sIndexExt] at this
 
+/-! #### one cache entry per CDN object (content type × hash × entry point) -/
+
+/-- on one CDN path `download` never gives two content types, or two hashes, the same cache key
+(hence, by `paths_injective`-style joining, the same cache file): equal keys mean equal content
+type and equal hash text. -/
+theorem cdn_cache_key_injective (basePath : Str) (ct1 ct2 : ContentType) (k1 k2 : List Nat) (s : Str)
+    (h1 : downloadCacheKey basePath ct1 k1 = .ok s) (h2 : downloadCacheKey basePath ct2 k2 = .ok s) :
+    ct1 = ct2 ∧ hexEncode k1 = hexEncode k2 := by
+  have e1 := downloadCacheKey_eq _ _ _ _ h1
+  have e2 := downloadCacheKey_eq _ _ _ _ h2
+  have nosl : ∀ k : List Nat, '/' ∉ hexEncode k := fun k hm => (hexEncode_chars k '/' hm).2.2 rfl
+  rw [e1] at e2
+  obtain ⟨e3, hk⟩ := last_seg_inj _ _ _ _ (nosl k1) (nosl k2) e2
+  refine ⟨?_, hk⟩
+  have notake : ∀ (k : List Nat) (n : Nat), '/' ∉ (hexEncode k).take n :=
+    fun k n hm => nosl k (List.mem_of_mem_take hm)
+  have nodt : ∀ (k : List Nat), '/' ∉ ((hexEncode k).drop 2).take 2 :=
+    fun k hm => nosl k (List.mem_of_mem_drop (List.mem_of_mem_take hm))
+  obtain ⟨e4, _⟩ := last_seg_inj _ _ _ _ (nodt k1) (nodt k2) e3
+  obtain ⟨e5, _⟩ := last_seg_inj _ _ _ _ (notake k1 2) (notake k2 2) e4
+  have hct : '/' ∉ ct1.text ∧ '/' ∉ ct2.text := by cases ct1 <;> cases ct2 <;> decide
+  have e6 := (last_seg_inj _ _ _ _ hct.1 hct.2 e5).2
+  cases ct1 <;> cases ct2 <;> first | rfl | (revert e6; decide)
+
+/-- on one CDN path the cache key of `download_archive_index` (any accepted archive key) differs
+from every cache key of `download` (any content type, any hash): an archive, or any other object,
+and an archive index never share a cache entry — the ".index" suffix cannot be the tail of a hex
+hash. -/
+theorem cdn_cache_key_index_distinct (basePath : Str) (ct : ContentType) (k : List Nat) (ak s1 s2 : Str)
+    (h1 : downloadCacheKey basePath ct k = .ok s1) (h2 : archiveIndexCacheKey basePath ak = .ok s2) :
+    s1 ≠ s2 := by
+  intro e
+  have e1 := downloadCacheKey_eq _ _ _ _ h1
+  obtain ⟨hsl, e2⟩ := archiveIndexCacheKey_eq _ _ _ h2
+  rw [e1, e2] at e
+  have hsl2 : '/' ∉ ak ++ sIndexExt := by
+    intro hm
+    rcases List.mem_append.mp hm with hm | hm
+    · exact hsl hm
+    · revert hm; decide
+  have := (last_seg_inj _ _ _ _ (fun hm => (hexEncode_chars k '/' hm).2.2 rfl) hsl2 e).2
+  have hd : '.' ∈ hexEncode k := by rw [this]; simp [sIndexExt]
+  exact (hexEncode_chars k '.' hd).2.1 rfl
+
+/-- the two theorems are not vacuous: `download(Data, K)` and `download_archive_index(hex K)` both
+produce keys, "…/abcd" and "…/abcd.index". -/
+example : downloadCacheKey ['t'] .data [0xab, 0xcd] = .ok "cdn/t/data/ab/cd/abcd".toList ∧
+    archiveIndexCacheKey ['t'] "abcd".toList = .ok "cdn/t/data/ab/cd/abcd.index".toList := by decide
+
 /-- ⟂ the pinned code sliced the archive key unchecked: three bytes, or a two-byte character
 across offset 2, panic. -/
 theorem archive_pinned_counter :
